@@ -333,6 +333,10 @@ func build(ctx context.Context, e *env) ([]chan int, []outp) {
 		e.mu.Lock()
 		e.visits = append(e.visits, x)
 		e.mu.Unlock()
+		if e.fails(x) {
+			// ForEach ignores what its function returns: a failing visit must not stop the stage
+			return x, e.failure(x)
+		}
 		return x, nil
 	}
 	m := monoidOf(c.mon)
